@@ -91,6 +91,18 @@ def build(targets, jobs=16, timeout=1500):
     return p.returncode == 0, p.stdout, time.time() - t0
 
 
+def build_variant(name, extra_flags, targets, jobs=16, timeout=2400):
+    """A second build tree (.build/cxx-<name>) with different flags, e.g. ThreadSanitizer."""
+    global BUILD, FLAGS
+    old_build, old_flags = BUILD, FLAGS
+    BUILD = os.path.join(VERIF, ".build", "cxx-" + name)
+    FLAGS = extra_flags
+    try:
+        return build(targets, jobs=jobs, timeout=timeout)
+    finally:
+        BUILD, FLAGS = old_build, old_flags
+
+
 if __name__ == "__main__":
     ok, log, dt = build(sys.argv[1:] or ["core", "render"])
     sys.stdout.write(log[-4000:])
